@@ -218,6 +218,9 @@ type GenProfile struct {
 	ExtraSock      bool // use second sockets (same IP, other port)
 	DLDR           bool
 	Dups           int // weight of retransmitted requests
+	// TxTimeouts: an unanswered Session Report Request is later followed by a "txto" step in which its
+	// retransmission timer runs out (all retries, then abandoned)
+	TxTimeouts bool
 }
 
 type genSess struct {
@@ -380,7 +383,12 @@ func Generate(r *Rng, p GenProfile) *History {
 			g.assoc[n] = true
 		}
 	}
+	pendingTx := false
 	for len(g.h.Ops) < nops {
+		if pendingTx && r.Chance(1, 3) {
+			add(Op{K: "txto", Node: 0, NodeID: -1, Sess: -1})
+			pendingTx = false
+		}
 		live := g.liveSessions()
 		w := []int{
 			2,           // 0 hb
@@ -544,6 +552,12 @@ func Generate(r *Rng, p GenProfile) *History {
 				}
 			case 1:
 				o.Answer = "ignore"
+				pendingTx = p.TxTimeouts
+			case 2:
+				if p.TxTimeouts {
+					o.Answer = "ignore"
+					pendingTx = true
+				}
 			}
 			add(o)
 		case 8:
